@@ -51,7 +51,8 @@ def canon_translator(t):
     try:
         sql_ast, attr_offsets = t.construct_sql_ast()
         r = re.sub(r' at 0x[0-9a-f]+', '', repr(sql_ast))
-        return [type(t).__name__, r[r.find("'FROM'"):], sorted((re.sub(r'\b\d{6,}\b', 'ID', repr(k)), repr(v)) for k, v in t.fixed_param_values.items())]
+        return [type(t).__name__, r[r.find("'FROM'"):], sorted((re.sub(r'\b\d{6,}\b', 'ID', repr(k)), repr(v)) for k, v in t.fixed_param_values.items()),
+                sorted((re.sub(r'\b\d{6,}\b', 'ID', repr(k)), re.sub(r' at 0x[0-9a-f]+|\b\d{6,}\b', '', repr(v))) for k, v in t.func_vartypes.items())]   # what the re-check of a hit compares
     except Exception as e:
         return [type(t).__name__, 'construct failed: ' + type(e).__name__]
 
@@ -305,6 +306,51 @@ def q_eval_filter(P, c):
     try: return ids(select(p for p in P).filter(func))
     finally:
         del func; gc.collect()
+# queries DERIVED from another query (the source as first generator: extend-previous-query path; as nested source; through a limit),
+# and the SOURCE query re-executed afterwards in forms not yet cached
+def base_q(P, x): return select(p for p in P if p.a > x)          # one code object for every source query
+def q_base(P, x): return ids(base_q(P, x))
+def q_base_count(P, x): return base_q(P, x).count()
+def q_base_limit(P, x, n): return [p.id for p in base_q(P, x).order_by(P.id)[:n]]
+def q_base_sum(P, x): return select(p.a for p in base_q(P, x)).sum()
+def q_derived(P, x, y):
+    base = base_q(P, x)
+    return ids(select(d for d in base if d.a < y))
+def q_derived_plain(P, x):
+    base = base_q(P, x)
+    return srt(select(d.s for d in base)[:])
+def q_derived_limit(P, x, n, y):
+    base = base_q(P, x).order_by(P.id).limit(n)
+    return ids(select(d for d in base if d.a < y))
+def q_derived_nested(P, x, y):
+    base = base_q(P, x)
+    return srt(select(p.id for p in P if p.a < y and p in base)[:])
+def q_derived_filter(P, x, y):
+    base = base_q(P, x)
+    return [ids(base.filter(lambda p: p.a < y)), ids(base.order_by(lambda p: p.s)), ids(base.where(b=None)), ids(base)]
+def q_derived_then_base(P, x, y):
+    base = base_q(P, x)
+    d = ids(select(d for d in base if d.a < y))
+    return [d, ids(base_q(P, x)), base_q(P, x).count(), [p.id for p in base_q(P, x).order_by(P.id)[:2]]]
+# refinement lambdas over HYBRID functions whose globals change value / type between executions
+HK = [None]
+HV = None
+def hyb_b(p): return p.b == HV
+def hyb_a(p): return p.a > HV
+def hyb_s(p): return p.s.startswith(HV)
+def set_hv(v):
+    global HV
+    HV = v
+def q_hyb_filter(P, v):
+    set_hv(v); return ids(select(p for p in P).filter(lambda p: hyb_b(p)))
+def q_hyb_where(P, v):
+    set_hv(v); return ids(select(p for p in P).where(lambda p: hyb_b(p)))
+def q_hyb_select(P, v):
+    set_hv(v); return ids(select(p for p in P if hyb_b(p)))
+def q_hyb_filter_a(P, v):
+    set_hv(v); return ids(select(p for p in P).filter(lambda p: hyb_a(p)))
+def q_hyb_order(P, v):
+    set_hv(v); return [p.id for p in select(p for p in P).filter(lambda p: hyb_a(p)).order_by(lambda p: (p.a, p.id))]
 def q_rawq(P, x): return srt(select(p.id for p in P if raw_sql("p.a > $x"))[:])
 def q_rawexpr(P, x): return srt(select((p.id, raw_sql("p.a + $x")) for p in P)[:])
 def r_select(db, x): return srt(db.select("select id from P where a > $x"))
@@ -344,6 +390,8 @@ class Env(object):
 QUERIES = {f.__name__: f for f in [q_cmp, q_cmpb, q_ne, q_date, q_str, q_in, q_slice, q_slice1, q_slice2, q_getattr, q_obj, q_fcall, q_lambda, q_lambda_s,
                                   q_strq, q_strq2, q_strlambda, q_filter, q_filter_s, q_where_a, q_where_b, q_order_s, q_order_d, q_order_l,
                                   q_count, q_sum, q_min, q_max, q_avg, q_countd, q_exists, q_first, q_get, q_page, q_limit, q_distinct, q_nodistinct,
+                                  q_base, q_base_count, q_base_limit, q_base_sum, q_derived, q_derived_plain, q_derived_limit, q_derived_nested, q_derived_filter,
+                                  q_derived_then_base, q_hyb_filter, q_hyb_where, q_hyb_select, q_hyb_filter_a, q_hyb_order,
                                   q_count_d, q_sum_d, q_avg_d, q_gc, q_count_ent_d, q_nested_slice, q_eval_lambda, q_eval_gen, q_eval_filter,
                                   q_forupdate, q_prefetch_lz, q_getsql_then_fetch, q_noprefetch_lz, q_rawq, q_rawexpr, r_bysql,
                                   e_get_a, e_get_b, e_select_a, e_exists, e_select_ab]}
@@ -502,6 +550,7 @@ def gen_value(rng, kinds):
     if k == 'tuple': return ['@tuple'] + [rng.choice(INTS) for _ in range(rng.choice([0, 1, 2, 3]))]
     if k == 'list': return ['@list'] + [rng.choice(INTS) for _ in range(rng.choice([0, 1, 2, 3]))]
     if k == 'strtuple': return ['@tuple'] + [rng.choice(['a', 'b']) for _ in range(rng.choice([1, 2]))]
+    if k == 'lim': return rng.choice([1, 2, 3])
     if k == 'tri': return rng.choice([None, False, True])
     if k == 'sep': return rng.choice([None, ',', '|'])
     if k == 'cond': return rng.randrange(8)
@@ -529,6 +578,11 @@ QSPEC = [   # (step, argument kinds per position, weight)
     ('e_select_ab', [['int'], ['int', 'none']], 2),
     ('q_count_d', [['int'], ['tri']], 3), ('q_sum_d', [['int'], ['tri']], 1), ('q_avg_d', [['int'], ['tri']], 1), ('q_gc', [['int'], ['sep'], ['tri']], 1),
     ('q_count_ent_d', [['int'], ['tri']], 1), ('q_nested_slice', [['bound', 'none'], ['bound', 'none']], 2),
+    ('q_base', [['int']], 3), ('q_base_count', [['int']], 2), ('q_base_limit', [['int'], ['lim']], 2), ('q_base_sum', [['int']], 1),
+    ('q_derived', [['int'], ['int']], 3), ('q_derived_plain', [['int']], 1), ('q_derived_limit', [['int'], ['lim'], ['int']], 1), ('q_derived_nested', [['int'], ['int']], 1),
+    ('q_derived_filter', [['int'], ['int']], 1), ('q_derived_then_base', [['int'], ['int']], 2),
+    ('q_hyb_filter', [['int', 'none', 'none']], 3), ('q_hyb_where', [['int', 'none']], 2), ('q_hyb_select', [['int', 'none']], 2),
+    ('q_hyb_filter_a', [['int', 'float']], 1), ('q_hyb_order', [['int', 'float']], 1),
     ('q_eval_lambda', [['cond']], 3), ('q_eval_gen', [['cond']], 3), ('q_eval_filter', [['cond']], 2),
 ]
 
@@ -696,7 +750,7 @@ def random_histories(ctx):
     flush_protocol(ctx)
 
 
-POOL = {'tri': [None, False, True], 'sep': [None, ',', '|'], 'cond': [0, 1, 2, 3, 4, 5], 'bound': [1, 2, 3, -1, -2], 'int': [1, 3, -1], 'none': [None], 'str': ['ab', 'b%'], 'date': [['@date', 2020, 1, 1], ['@date', 2021, 1, 1]], 'bool': [True], 'float': [1.5],
+POOL = {'lim': [1, 2, 3], 'tri': [None, False, True], 'sep': [None, ',', '|'], 'cond': [0, 1, 2, 3, 4, 5], 'bound': [1, 2, 3, -1, -2], 'int': [1, 3, -1], 'none': [None], 'str': ['ab', 'b%'], 'date': [['@date', 2020, 1, 1], ['@date', 2021, 1, 1]], 'bool': [True], 'float': [1.5],
         'tuple': [['@tuple'], ['@tuple', 1], ['@tuple', 1, 3]], 'list': [['@list', 1], ['@list', 0, 3]], 'strtuple': [['@tuple', 'a']],
         'obj': [['@obj', 'G', 1], ['@obj', 'G', 2]], 'pobj': [['@obj', 'P', 1]]}
 SPECIALS = [
@@ -708,6 +762,9 @@ SPECIALS = [
     [['q_slice', 0, 2], ['q_slice', 1, 2], ['q_slice', 1, None], ['q_slice', None, -1], ['q_slice', -2, None], ['q_slice', 0, 1]],
     [['q_slice1', 0], ['q_slice1', 2], ['q_slice1', None], ['q_slice1', -1]], [['q_slice2', 0], ['q_slice2', 2], ['q_slice2', None], ['q_slice2', -1]],
     [['q_subq', 0], ['q_subq', 1], ['q_from', 0, 5], ['q_from', 1, 3]],
+    [['q_derived', 1, 3], ['q_base', 1], ['q_base_count', 1], ['q_base_limit', 1, 2], ['q_base_sum', 1], ['q_derived_plain', 1], ['q_derived_limit', 1, 2, 5], ['q_derived_nested', 1, 5],
+     ['q_derived_filter', 1, 3], ['q_derived', 0, 2]],
+    [['q_hyb_filter', None], ['q_hyb_filter', 1], ['q_hyb_filter', 0], ['q_hyb_where', None], ['q_hyb_where', 1], ['q_hyb_select', None], ['q_hyb_select', 3]],
     [['q_nested_stop', 1], ['q_nested_stop', 2], ['q_nested_stop', 3], ['q_nested_stop', -1], ['q_nested_stop', None]],
     [['q_nested_start', 1], ['q_nested_start', 2], ['q_nested_start', 3], ['q_nested_start', -1]],
     [['q_nested_getattr', 'a'], ['q_nested_getattr', 'b']],
@@ -723,7 +780,7 @@ def pair_corpus(ctx):
     and every query before / after every kind of in-session modification (unflushed, flushed by the query's own auto-flush, committed)"""
     rng = ctx.rng
     hists = []
-    per_spec = ctx.scale(8, 40)
+    per_spec = ctx.scale(6, 40)
     for name, kinds, w in QSPEC:
         pools = []
         for ks in kinds:
@@ -735,7 +792,7 @@ def pair_corpus(ctx):
         rng.shuffle(pairs)
         for a, b in pairs[:per_spec]:
             hists.append([[name] + a, [name] + b, [name] + a, ['end']])
-        for m in (MODS if ctx.thorough else rng.sample(MODS, 5)):
+        for m in (MODS if ctx.thorough else rng.sample(MODS, 3)):
             a = rng.choice(tuples)
             h = [[name] + a, list(m)] + ([['commit']] if m[0].startswith('db_insert') else []) + [[name] + a, ['commit'], [name] + a, ['end']]
             hists.append(h)
